@@ -73,8 +73,19 @@ func main() {
 	tier := flag.String("tier", "quick", "quick|thorough")
 	evOut := flag.String("evidence", "", "evidence file (default <verif>/evidence/<prop>.json)")
 	noKnown := flag.Bool("no-known", false, "ignore known_findings.json (selftest)")
+	dumpF := flag.Bool("dump-funcs", false, "print the function keys of the library packages (to regenerate checker/known_funcs.txt) and exit")
+	noNorm := flag.Bool("no-normalize", false, "do not substitute unknown helper functions back into their callers before analysing")
 	selftestJSON := flag.String("selftest", "", "JSON summary of the rule self-test to embed in the evidence (thorough tier)")
 	flag.Parse()
+	if *dumpF {
+		fs, err := dumpFuncs(*repo)
+		if err != nil {
+			fmt.Fprintln(os.Stderr, err)
+			os.Exit(2)
+		}
+		fmt.Println(strings.Join(fs, "\n"))
+		return
+	}
 	if *prop == "" {
 		fmt.Fprintln(os.Stderr, "usage: verifcheck -prop Cxx [-tier quick|thorough]")
 		os.Exit(2)
@@ -92,6 +103,18 @@ func main() {
 		seed, _ = strconv.Atoi(s)
 	}
 	abs, _ := filepath.Abs(*repo)
+	origRepo := abs
+	if !*noNorm {
+		dir, inl, cleanup, err := normalizeRepo(abs, *verif)
+		if err == nil && dir != abs {
+			abs = dir
+			normalizedHelpers = inl
+			defer cleanup()
+			fmt.Printf("NOTE: %d new helper function(s) were substituted back into their callers before analysis (behaviour-preserving normalisation): %s; line numbers below refer to the normalised source\n", len(inl), strings.Join(inl, ", "))
+			exitHook = cleanup
+		}
+	}
+	_ = origRepo
 	progs := map[string]*Prog{}
 	exit := 0
 	for _, id := range props {
@@ -109,8 +132,14 @@ func main() {
 			exit = code
 		}
 	}
+	if exitHook != nil {
+		exitHook()
+	}
 	os.Exit(exit)
 }
+
+var normalizedHelpers []string
+var exitHook func()
 
 func runProp(pc *PropCheck, repo, verif, tier, evPath string, seed int, noKnown bool, progs map[string]*Prog, selftestJSON string) (code int) {
 	start := time.Now()
@@ -188,6 +217,9 @@ func runProp(pc *PropCheck, repo, verif, tier, evPath string, seed int, noKnown 
 	if err != nil {
 		fmt.Fprintln(os.Stderr, "verifcheck: writing evidence:", err)
 		return 2
+	}
+	if len(normalizedHelpers) > 0 {
+		L.Assume("analysed after substituting these new helper functions back into their callers: " + strings.Join(normalizedHelpers, ", "))
 	}
 	for _, a := range L.Advisories {
 		fmt.Printf("ADVISORY: property=%s %s\n", pc.ID, a)
